@@ -254,7 +254,7 @@ func ruleEOLFlag(c *Ctx, rule string) {
 				break
 			}
 			r, ok := loadedField(v)
-			return ok && r.is("Decoder", "r")
+			return ok && (r.is("Decoder", "r") || derivedReaderFields(p)[r.Field])
 		}
 		reading := map[string]bool{"ReadByte": true, "Read": true, "ReadString": true, "ReadLine": true, "ReadBytes": true, "ReadRune": true, "ReadSlice": true, "Discard": true, "WriteTo": true}
 		if o := calleeObj(call); o != nil {
@@ -2139,10 +2139,27 @@ func ruleRecursiveCriteriaCoverage(c *Ctx, rule string) {
 		}
 		visited := map[string]bool{}
 		selfRec := false
+		// the recursion may go through an unexported helper of the walk
+		// (`searchEither(seqNum, &criteria.Or[i])` calling search twice)
+		recCallees := map[*ssa.Function]bool{fn: true}
+		for _, h := range helperClosure(fn, 2) {
+			if h == fn || h.Parent() != nil {
+				continue
+			}
+			calls := false
+			allInstrs(h, func(i ssa.Instruction) {
+				if call, ok := i.(ssa.CallInstruction); ok && staticCallee(call) == fn {
+					calls = true
+				}
+			})
+			if calls {
+				recCallees[h] = true
+			}
+		}
 		for _, g := range withAnon(fn) {
 			allInstrs(g, func(i ssa.Instruction) {
 				call, ok := i.(ssa.CallInstruction)
-				if !ok || staticCallee(call) != fn {
+				if !ok || !recCallees[staticCallee(call)] {
 					return
 				}
 				for _, a := range call.Common().Args {
